@@ -183,6 +183,19 @@ pub fn guard<T>(f: impl FnOnce() -> T) -> Result<T, PanicInfo> {
     })
 }
 
+/// Evaluate `f` in a brand-new thread (fresh thread-local state, no call history). Used by the
+/// history-independence monitors: a pure function must give the same result whatever was called before it.
+pub fn fresh_thread<T: Send>(f: impl FnOnce() -> T + Send) -> Result<T, PanicInfo> {
+    std::thread::scope(|s| {
+        std::thread::Builder::new()
+            .stack_size(128 << 20)
+            .spawn_scoped(s, move || guard(f))
+            .expect("spawn")
+            .join()
+            .unwrap_or_else(|_| Err(PanicInfo { message: "thread died".into(), location: String::new() }))
+    })
+}
+
 // ------------------------------------------------------------------------------------------
 #[derive(Clone, Copy, PartialEq, Eq, Debug)]
 pub enum Tier {
